@@ -332,8 +332,27 @@ class Plumbing:
                         p, w = classify_value(s.value)
                         loop = getattr(s, "_parent", None)
                         it = src(loop.iter) if isinstance(loop, ast.For) else ""
+                        if p is None and isinstance(loop, ast.For):
+                            # `for d, col in zip(range(P.shape[1]), P.T): results[f"..{d}"] = col` - the header read canonically: col is P.T[_I_], i.e. P[:, _I_]
+                            from .util import IDX, loop_binding
+                            try:
+                                benv, counts = loop_binding(loop.target, loop.iter)
+                            except AnalysisError:
+                                benv, counts = {}, []
+                            if isinstance(s.value, ast.Name) and s.value.id in benv:
+                                ve = benv[s.value.id]
+                                idx_names = [nm for nm, e_ in benv.items() if src(e_) == IDX]
+                                if isinstance(ve, ast.Subscript) and src(ve.slice) == IDX and isinstance(ve.value, ast.Attribute) and ve.value.attr == "T" and isinstance(ve.value.value, ast.Name) \
+                                        and ve.value.value.id in params and idx_names and any(src(c_).replace(" ", "") in (f"{ve.value.value.id}.shape[1]", f"len({ve.value.value.id}.T)") for c_ in counts):
+                                    pn, d_ = ve.value.value.id, idx_names[0]
+                                    key = _str_const(s.targets[0].slice, env)
+                                    if key is not None:
+                                        record(pn, Storage("csv", key, s.value, f"[(:, {d_})] for {d_} in range({pn}.shape[1])", s))
+                                        continue
                         if p is not None and key is not None:
                             record(p, Storage("csv", key, s.value, f"{w} for {src(loop.target) if isinstance(loop, ast.For) else '?'} in {it}", s))
+                        else:
+                            raise AnalysisError(f"{f.loc(s)}: cannot read what `{src(s)[:70]}` stores into the results table; the column map of save cannot be read")
                 # `d.update({key(d): value(d) for d in <iter>})` / `d.update({...literal...})` / `d |= {...}`
                 upd: list[ast.expr] = []
                 for s in walk_scope(f.node):
